@@ -49,6 +49,9 @@ class Result:
 
 
 Z3_TIMEOUT_MS = int(os.environ.get("ROPTVC_Z3_TIMEOUT_MS", "8000"))
+Z3_RETRY_FACTOR = int(os.environ.get("ROPTVC_Z3_RETRY_FACTOR", "8"))
+MAX_SOLVER_RETRIES = 4  # per case (one process per case)
+SOLVER_RETRIES = [0]
 CVC5_TLIMIT_S = int(os.environ.get("ROPTVC_CVC5_TLIMIT_S", "20"))
 
 
@@ -61,6 +64,12 @@ def _solve(pc, goal, rlimit=sym.RLIMIT_PROVE, timeout_ms=None):
         s.add(c)
     s.add(z3.Not(goal))
     r = s.check()
+    if r == z3.unknown and timeout_ms is None and SOLVER_RETRIES[0] < MAX_SOLVER_RETRIES and "rlimit" not in s.reason_unknown() and "resource" not in s.reason_unknown():
+        # the wall-clock limit (not the deterministic resource limit) stopped the solver: the machine may just be busy.
+        # One retry with a much longer wall-clock limit keeps the verdict independent of the load; the resource limit still bounds it.
+        SOLVER_RETRIES[0] += 1
+        s.set("timeout", (timeout_ms or Z3_TIMEOUT_MS) * Z3_RETRY_FACTOR)
+        r = s.check()
     if r == z3.unsat:
         return "proved", "z3", None
     if r == z3.sat:
@@ -225,6 +234,19 @@ class TBase:
         self.notes[key] = value
 
 
+class _Gone:
+    """Stands for a function/class under contract that no longer exists under that name: any use raises ContractUnbound."""
+
+    def __init__(self, why):
+        object.__setattr__(self, "_why", why)
+
+    def __call__(self, *a, **k):
+        raise sym.ContractUnbound(object.__getattribute__(self, "_why"))
+
+    def __getattr__(self, name):
+        raise sym.ContractUnbound(object.__getattribute__(self, "_why"))
+
+
 class TSym(TBase):
     """Symbolic mode."""
 
@@ -349,7 +371,13 @@ class TSym(TBase):
         return sh.get(modname, qualname)
 
     def under_contract(self, sh, modname, qualname, stubs=None):
-        info = sh.info(modname, qualname)
+        try:
+            info = sh.info(modname, qualname)
+        except sym.ContractUnbound as exc:
+            # a helper that the harness only lists (its body is executed as part of its callers anyway) may have been
+            # renamed or inlined: note it; the contract is lost only if the harness really needs the object
+            self.engine.note_gone(modname, qualname)
+            return _Gone(str(exc))
         self.engine.note_function(info, stubs)
         return sh.get(modname, qualname)
 
@@ -677,6 +705,10 @@ class Engine:
             nm = k if not isinstance(k, tuple) else "%s:%s" % k
             self.assumed[nm] = getattr(v, "__doc__", None) or "contract stub"
 
+    def note_gone(self, modname, qualname):
+        self.functions["%s:%s" % (modname, qualname)] = {"function": "%s:%s" % (modname, qualname), "file": None, "lines": None, "sha256": None,
+                                                       "gone": "no longer defined under this name (renamed or inlined); bodies of its former callers are still executed"}
+
     def push_alternative(self, decisions):
         self._work.append(decisions)
 
@@ -739,6 +771,14 @@ class Engine:
             except Unsupported as exc:
                 self.undecided.append((case_id, "unsupported: %s" % exc))
             except Exception as exc:  # noqa: BLE001
+                why = sym.binding_error(exc)
+                if why is not None:
+                    # the harness no longer fits the code (renamed/removed private function, changed private signature):
+                    # that is a lost proof for this case, never a statement about the property
+                    self.undecided.append((case_id, "contract does not bind: %s" % why))
+                    self.paths += 1
+                    sym.set_ctx(None)
+                    break
                 # an exception escaping the scenario on a feasible path is a failed obligation
                 r, s = c._check([])
                 if r != z3.unsat:
@@ -766,6 +806,14 @@ class Engine:
                 scenario(T, case)
         except InfeasiblePath:
             return T, "skipped"
+        except Exception as exc:  # noqa: BLE001
+            why = sym.binding_error(exc)
+            if why is None:
+                raise
+            note = (case_id, "contract does not bind (native run): %s" % why)
+            if note not in self.undecided:
+                self.undecided.append(note)
+            return T, "unbound"
         self.concrete_runs += 1
         try:
             key = json.dumps(to_jsonable(T.inputs), sort_keys=True, default=repr)
